@@ -220,6 +220,10 @@ def add(chk, tier, seed):
             continue
         chk.violation("C12.B.quotes_caller_exactly", msg, replay={"kind": "case", "case": {"entry": name, "description": d, "quoted": quoted}}, found_input=True)
     chk.add_bounded("quoted expression of SyntaxErrors raised through public entry points equals the caller's description", "8 malformed descriptions x 6 entry points", 48, 48, failures=qt)
+    dn = deep_nesting_cases()
+    for ob, s_, detail in dn:
+        chk.violation(ob, detail, replay={"kind": "case", "case": {"string": s_}}, found_input=True)
+    chk.add_bounded("deeply nested parentheses / brackets (depth 20 ... 3000, balanced and unbalanced) through the real parse_op", "5 depths x 2 delimiters x 4 shapes", 40, 40, failures=dn)
     el = elop_strings()
     for op, d, shape, msg in el:
         if is_known_braces(d, msg):
@@ -227,6 +231,22 @@ def add(chk, tier, seed):
             continue
         chk.violation("C12.B.elop_text", f"einx.{op}({d!r}, shape={shape}) fails with: {msg}", replay={"kind": "case", "case": {"op": op, "description": d, "shape": list(shape)}}, found_input=True)
     chk.add_bounded("el_op strings built by adapters (reduce/preserve_shape/argfind) through the public API", f"{len(ELOP_DESCS)} descriptions x {len(ELOP_OPS)} ops x 3 ranks", len(ELOP_DESCS) * len(ELOP_OPS) * 3, len(ELOP_DESCS) * len(ELOP_OPS), failures=el)
+
+
+def deep_nesting_cases():
+    """'for every description string parsing terminates and either succeeds or raises SyntaxError': strings whose nesting depth exceeds any recursion budget"""
+    out = []
+    for depth in (20, 90, 101, 400, 3000):
+        for o, c in ("()", "[]"):
+            for s in (o * depth + "a" + c * depth, "a " + o * depth + "b c" + c * depth + " -> a b c", o * depth + "a", o * depth + "a" + c * depth + " " + c):
+                st, T, msg = parse(s)
+                if st.startswith("internal"):
+                    out.append(("C12.B.total", s[:40] + f"...[nesting depth {depth}]", f"parse_op on a string with {depth} nested {o!r} escapes with {st[9:]} instead of succeeding or raising SyntaxError"))
+                elif st == "ok":
+                    st2, T2, _ = parse(str(T))
+                    if st2 != "ok" or dump(T2) != dump(T):
+                        out.append(("C12.B.roundtrip", s[:40] + f"...[nesting depth {depth}]", f"a string with {depth} nested {o!r} parses but its printed form does not re-parse to the same structure"))
+    return out
 
 
 def replay(s):
